@@ -96,7 +96,7 @@ fn main() {
     if !(label.starts_with("checkpoint") || label.contains("create_checkpoint") || label.contains("rewind")) { return; }
     let base = std::env::temp_dir().join(format!("rip-verif-c14-{}", std::process::id()));
     let _ = fs::remove_dir_all(&base);
-    let files = ["a.txt", "d/b.txt"];
+    let files = ["a.txt", "d/b\\c.txt"];      // the second name holds a backslash: on Unix an ordinary character of the file name
     let mut case = 0u64;
     // state of each file: 0 absent, 1 "v1", 2 "v2"; before checkpoint x after edits x which files are covered x how they are named x cwd x sabotage
     for before in 0..9usize { for after in 0..9usize { for cover in 1..4usize { for naming in 0..2usize { for cwd_is_root in [true, false] { for sabotage in [false, true] {
